@@ -68,6 +68,7 @@ type target struct {
 	LoopBody  int               // N >= 1: translate the prologue + the body of the N-th top-level for / range statement
 	RangeVars map[string]string // Go types of the range variables of that loop (name -> type text)
 	// ext_isostat.go
+	Fields    []string          // ext_shaping.go: constructor target: the result is the tuple of these fields of the returned struct literal
 	NilRes []string // result types (source text, e.g. "*Rule") reported as a Z code like an error: 0 = nil, Errs[expr] otherwise
 }
 
@@ -288,6 +289,10 @@ func (p *pkgInfo) constEval(e ast.Expr, iota int64) (int64, bool) {
 	case *ast.ParenExpr:
 		return p.constEval(e.X, iota)
 	case *ast.CallExpr:
+	case *ast.SelectorExpr:
+		if v, ok := timeConsts[src(p.fset, e)]; ok { // time.Millisecond ... (ext_hotspot.go)
+			return v, true
+		}
 		if len(e.Args) == 1 {
 			return p.constEval(e.Args[0], iota)
 		}
@@ -309,6 +314,10 @@ func (p *pkgInfo) constEval(e ast.Expr, iota int64) (int64, bool) {
 			case token.SHL:
 				return a << uint(b), true
 			}
+			case token.QUO:
+				if b != 0 {
+					return a / b, true
+				}
 		}
 	}
 	return 0, false
@@ -1049,6 +1058,9 @@ func (x *tr) exec1(stmts []ast.Stmt, rest [][]ast.Stmt) string { // called throu
 					vs = append(vs, cname(r))
 				}
 			}
+		if vs, ok := x.returnFields(s); ok { // ext_shaping.go: constructor targets
+			return x.retTuple(x.withTrace(x.loopRet(vs)))
+		}
 			return x.retTuple(x.withTrace(x.loopRet(vs)))
 		}
 		if len(s.Results) != len(x.resTypes) {
@@ -1115,6 +1127,9 @@ func (x *tr) exec1(stmts []ast.Stmt, rest [][]ast.Stmt) string { // called throu
 		}
 		if x.isMessageExpr(s.Rhs[0]) && s.Tok == token.DEFINE {
 			x.vars[id.Name] = "string"
+		if out, ok := x.defineComposite(s, tail, rest); ok { // ext_shaping.go: constructor targets
+			return out
+		}
 			return x.exec(tail, rest)
 		}
 		var v val
@@ -1427,6 +1442,9 @@ func translate(root *rootT, t target) (def string, info outFn) {
 	// the obligation.
 	body := pre + x.exec(fd.Body.List, nil)
 	var names []string
+	if len(t.Fields) > 0 { // ext_shaping.go: a constructor's results are the listed fields of the struct it builds
+		x.resTypes, x.results, pre = x.fieldResTypes(fd), nil, ""
+	}
 	for n := range x.params {
 		names = append(names, n)
 	}
